@@ -98,14 +98,16 @@ def evaluate(c):
         if c["force"]:
             return out
         fn = {"lpsd": S.lpsd_plan, "ltf": S.ltf_plan, "vectorized_ltf": S.vectorized_ltf_plan, "new_ltf": S.new_ltf_plan}[c["scheduler"]]
-        olap = an.config["final_olap"]
+        olap = an.config.get("final_olap", c["olap"])
         q = fn(N=c["N"], fs=c["fs"], olap=olap, bmin=c["bmin"], Lmin=c["Lmin"], Jdes=c["Jdes"], Kdes=c["Kdes"])
         out["sched"] = _dig(q["f"], q["r"], q["b"], q["L"], q["K"], q["navg"], q["O"], *[np.asarray(d) for d in q["D"]])
         r = an.compute()
-        d = r._data
+        from mc import api
+        d = api.raw(r)
         out["raw"] = _dig(d["XX"], d["YY"], d["XY"], d["M2"], d["S12"], d["S2"])
         j = len(p["f"]) // 2
-        sb = an.compute_single_bin(float(p["f"][j]), fres=float(p["r"][j]) * 1.03)._data
+        sb = an.compute_single_bin(float(p["f"][j]), fres=float(p["r"][j]) * 1.03)
+        sb = api.raw(sb)
         out["single"] = _dig(sb["XX"], sb["YY"], sb["XY"], sb["M2"], sb["S12"], sb["S2"], sb["L"], sb["K"], sb["D"][0])
         out["derived"] = _dig(r.Gxx, r.ENBW, r.Gxx_dev, *( [r.coh, r.Hxy, r.cs] if r.iscsd else [r.asd, r.ps]))
     except Exception as e:  # noqa: BLE001
